@@ -20,6 +20,10 @@ reserved_entrypoints = {
     'set_delegate': b'\x03',
     'remove_delegate': b'\x04',
     'deposit': b'\x05',
+    'stake': b'\x06',
+    'unstake': b'\x07',
+    'finalize_unstake': b'\x08',
+    'set_delegate_parameters': b'\x09',
 }
 
 
